@@ -855,6 +855,74 @@ func hStrings(nt, n int) [][]Sym {
 	return out
 }
 
+// hSentenceNeighbours enumerates sentences of the first input (leftmost derivations, length and
+// count bounded) together with every single-token substitution, deletion and insertion.
+func hSentenceNeighbours(g *hGrammar, maxLen, maxCount int) [][]Sym {
+	type form []Sym
+	seen := map[string]bool{}
+	var sentences [][]Sym
+	queue := []form{{g.inputs[0].Nonterminal}}
+	for len(queue) > 0 && len(sentences) < maxCount {
+		f := queue[0]
+		queue = queue[1:]
+		pos := -1
+		for i, s := range f {
+			if int(s) >= g.nt {
+				pos = i
+				break
+			}
+		}
+		if pos < 0 {
+			k := fmt.Sprint(f)
+			if !seen[k] {
+				seen[k] = true
+				sentences = append(sentences, append([]Sym(nil), f...))
+			}
+			continue
+		}
+		for _, r := range g.rules {
+			if r.LHS != f[pos] {
+				continue
+			}
+			nf := append(append(append(form(nil), f[:pos]...), hRHS(r)...), f[pos+1:]...)
+			terms := 0
+			for _, s := range nf {
+				if int(s) < g.nt {
+					terms++
+				}
+			}
+			if terms <= maxLen && len(nf) <= maxLen+3 && len(queue) < 5000 {
+				queue = append(queue, nf)
+			}
+		}
+	}
+	out := [][]Sym{{}}
+	add := func(w []Sym) {
+		k := fmt.Sprint(w)
+		if !seen["n"+k] {
+			seen["n"+k] = true
+			out = append(out, append([]Sym(nil), w...))
+		}
+	}
+	for _, s := range sentences {
+		add(s)
+		for i := 0; i <= len(s); i++ {
+			if i < len(s) {
+				add(append(append([]Sym(nil), s[:i]...), s[i+1:]...))
+			}
+			for t := 1; t < g.nt; t++ {
+				add(append(append(append([]Sym(nil), s[:i]...), Sym(t)), s[i:]...))
+				if i < len(s) {
+					w := append([]Sym(nil), s...)
+					w[i] = Sym(t)
+					add(w)
+				}
+			}
+		}
+	}
+	return out
+}
+
 func hStr(w []Sym) string {
 	var b strings.Builder
 	for _, s := range w {
